@@ -994,6 +994,110 @@ func HelperInitRule(w *World, b *Backend, r *Result, rule string, only func(help
 				}
 			}
 		}
+		// Batch: a variable the routine both assigns and reads must receive a value on an
+		// unconditional line (not under if / inside a block) of the routine, or from a
+		// routine it calls, before its first read; otherwise the first read sees what the
+		// previous invocation left behind
+		if b.Role == "batch" {
+			depth := 0
+			uncond := map[string]int{}
+			anyAssign := map[string]bool{}
+			firstRead := map[string]int{}
+			depthAt := make([]int, len(lines)+1)
+			type asg struct{ line, depth int }
+			blockAssign := map[string][]asg{}
+			calleeSets := func(c string) map[string]bool {
+				out := map[string]bool{}
+				d := 0
+				for _, l := range b.Helpers[c] {
+					txt, _ := flattenPUA(l.Variant)
+					t := strings.TrimSpace(txt)
+					if d == 0 && strings.HasPrefix(strings.ToLower(t), "set ") {
+						for _, m := range reSet.FindAllStringSubmatch(t, -1) {
+							out[m[1]] = true
+						}
+					}
+					if l.Batch != nil {
+						d += l.Batch.Depth
+					}
+				}
+				return out
+			}
+			for i, l := range lines {
+				txt, _ := flattenPUA(l.Variant)
+				t := strings.TrimSpace(txt)
+				lower := strings.ToLower(t)
+				if l.Batch != nil {
+					for _, nme := range append(append([]string{}, l.Batch.Delayed...), l.Batch.Percent...) {
+						if _, ok := firstRead[nme]; !ok {
+							// a read on the right-hand side of an assignment of the same variable is the self-update case above
+							firstRead[nme] = i
+						}
+					}
+				}
+				depthAt[i] = depth
+				for _, m := range reSet.FindAllStringSubmatch(t, -1) {
+					anyAssign[m[1]] = true
+					if (strings.HasPrefix(lower, "set ") || strings.HasPrefix(lower, "for /f ")) && !strings.Contains(m[2], "!"+m[1]+"!") {
+						blockAssign[m[1]] = append(blockAssign[m[1]], asg{i, depth})
+					}
+					if depth == 0 && strings.HasPrefix(lower, "set ") && !strings.Contains(m[2], "!"+m[1]+"!") {
+						if _, ok := uncond[m[1]]; !ok {
+							uncond[m[1]] = i
+						}
+					}
+				}
+				for _, c := range invokedHelpers(b, l) {
+					if c == h || depth != 0 {
+						continue
+					}
+					for v := range calleeSets(c) {
+						if _, ok := uncond[v]; !ok {
+							uncond[v] = i
+						}
+					}
+				}
+				if l.Batch != nil {
+					depth += l.Batch.Depth
+				}
+			}
+			var vars []string
+			for v := range anyAssign {
+				vars = append(vars, v)
+			}
+			sort.Strings(vars)
+			for _, v := range vars {
+				rd, isRead := firstRead[v]
+				if !isRead {
+					continue
+				}
+				key := fmt.Sprintf("init:%s:%s:%s:first-read", b.Role, h, v)
+				pos := w.Pos(lines[rd].Em.Pos)
+				// an assignment earlier in the same (or an enclosing) block that is still open at the read
+				inBlock := -1
+				for _, a := range blockAssign[v] {
+					if a.line >= rd {
+						continue
+					}
+					open := true
+					for k := a.line + 1; k <= rd; k++ {
+						if depthAt[k] < a.depth {
+							open = false
+						}
+					}
+					if open {
+						inBlock = a.line
+					}
+				}
+				if at, ok := uncond[v]; ok && at <= rd {
+					r.Ok(rule, key, pos, fmt.Sprintf("%s receives a value unconditionally on line %d of the routine, before its first read on line %d", v, at+1, rd+1))
+				} else if inBlock >= 0 {
+					r.Ok(rule, key, pos, fmt.Sprintf("%s is assigned on line %d, in a block that is still open at its first read on line %d", v, inBlock+1, rd+1))
+				} else {
+					r.Bad(rule, key, pos, fmt.Sprintf("helper %s reads %s on line %d (%s) before any unconditional assignment in the routine: its value is what the previous invocation (or nobody) left there", h, v, rd+1, strings.TrimSpace(lines[rd].Variant.String())))
+				}
+			}
+		}
 		seen := map[string]bool{}
 		for _, u := range selfs {
 			if seen[u.v] {
